@@ -234,6 +234,20 @@ def fuse_comprehensions(t: "T") -> "T":
     return T(t.op, t.name, args, kw, t.node)
 
 
+def counter_entries(t: "T") -> "T":
+    """`S[k]` for a counter k that runs over `range(len(..))` is an entry of S (`each(S)`).  Drops WHICH entry -- use only where the
+    question is what kind of thing an entry of S is (index spaces), never where positions are compared."""
+    if not t.args and not t.kw:
+        return t
+    args = [counter_entries(a) for a in t.args]
+    kw = {k: counter_entries(v) for k, v in t.kw.items()}
+    if t.op == "sub" and len(args) == 2 and args[1].op == "elem" and args[1].args[0].op == "call" and args[1].args[0].name == "range" and \
+            len(args[1].args[0].args) == 1 and args[1].args[0].args[0].op == "call" and args[1].args[0].args[0].name == "len" and \
+            not any(x.key() == args[1].key() for x in args[0].walk()):
+        return T("elem", None, [args[0]], node=t.node)
+    return T(t.op, t.name, args, kw, t.node)
+
+
 def align_positions(t: "T") -> "T":
     """Element k / position k of `enumerate(X)`:  `for i, x in enumerate(X)` -> x == each(X), i == pos(X'), where X' is the
     sequence X was built from element by element (a comprehension keeps length and order).  Afterwards comprehensions are
@@ -978,6 +992,10 @@ class Expander:
         if isinstance(e, ast.Lambda):
             return T("lambda", None, [self._tr(e.body)], node=e)
         if isinstance(e, (ast.ListComp, ast.SetComp, ast.GeneratorExp)):
+            if len(e.generators) == 1 and not e.generators[0].ifs and not isinstance(e, ast.SetComp):
+                z = _index_comp(self._tr(e.elt), self._tr(e.generators[0].iter))
+                if z is not None:
+                    return T("comp", None, list(z), node=e)
             return T("comp", None, [self._tr(e.elt)] + [self._tr(g.iter) for g in e.generators]
                      + [self._tr(c) for g in e.generators for c in g.ifs], node=e)
         if isinstance(e, ast.DictComp):
@@ -987,6 +1005,47 @@ class Expander:
         if isinstance(e, ast.NamedExpr):
             return self._tr(e.value)
         return T("expr", type(e).__name__, [], node=e)
+
+
+def _index_comp(body: "T", it: "T"):
+    """`[E(A[k], B[k]) for k in range(len(A))]` is `[E(a, b) for a, b in zip(A, B)]` (and `[E(A[k]) for k in range(len(A))]` is
+    `[E(a) for a in A]`): a comprehension that uses its counter only to index sequences walks those sequences in lock step.  Equal on
+    every execution that does not raise (a shorter sequence raises IndexError in the index form).  Returns (body', iterable') or None."""
+    if not (it.op == "call" and it.name == "range" and len(it.args) == 1 and not it.kw and it.args[0].op == "call" and
+            it.args[0].name == "len" and len(it.args[0].args) == 1):
+        return None
+    X = it.args[0].args[0]
+    ek = T("elem", None, [it]).key()
+    is_k = lambda x: x.op == "elem" and x.key() == ek
+    has_k = lambda x: any(is_k(y) for y in x.walk())
+    seqs, bare = [], []
+
+    def collect(x):
+        if is_k(x):
+            bare.append(x)
+            return
+        if x.op == "sub" and len(x.args) == 2 and is_k(x.args[1]) and not has_k(x.args[0]):
+            if x.args[0].key() not in [s_.key() for s_ in seqs]:
+                seqs.append(x.args[0])
+            return
+        for a in list(x.args) + list(x.kw.values()):
+            collect(a)
+    collect(body)
+    if bare or not seqs:
+        return None
+    if X.key() not in [s_.key() for s_ in seqs]:
+        seqs.append(X)
+    keys = [s_.key() for s_ in seqs]
+    new_it = seqs[0] if len(seqs) == 1 else T("call", "zip", list(seqs), node=it.node)
+    el = T("elem", None, [new_it])
+
+    def sub(x):
+        if x.op == "sub" and len(x.args) == 2 and is_k(x.args[1]) and not has_k(x.args[0]):
+            return el if len(seqs) == 1 else T("item", keys.index(x.args[0].key()), [el], node=x.node)
+        if not x.args and not x.kw:
+            return x
+        return T(x.op, x.name, [sub(a) for a in x.args], {k_: sub(v) for k_, v in x.kw.items()}, x.node)
+    return sub(body), new_it
 
 
 def _neg_guard(g: "T") -> "T":
